@@ -458,6 +458,13 @@ func runMsg(c *Case) lib.Result {
 	n := len(c.Msgs)
 	res.Tags = []string{"kind:msg", "api:" + apiNames[c.API], "class:" + o.Class, fmt.Sprintf("chunks:%d", n)}
 	res.Tags = append(res.Tags, msgFeatureTags(c.Msgs)...)
+	var extras []*CV
+	for _, m := range c.Msgs {
+		if m != nil && m.Extra != nil {
+			extras = append(extras, m.Extra)
+		}
+	}
+	res.Tags = append(res.Tags, clashTags(extras)...)
 	res.Nontrivial = n >= 2
 	api := 1
 	if c.API == apiConcatMessages {
